@@ -204,8 +204,14 @@ FRAGS = ["&lt;", "&gt;", "&amp;", "&apos;", "&quot;", "&#65;", "&#x41;", "&#X41;
          "&nbsp;", "&#9;", "&#10;", "&#13;", "\t", "\n"]
 
 
+GOOD_FRAGS = ["&lt;", "&gt;", "&amp;", "&apos;", "&quot;", "&#65;", "&#x41;", "&#xE000;", "&#x10FFFF;", "a", " ", "é", "&#xe9;", "&#233;",
+              "&#x1F600;", "&#128512;", "&#065;", "&#x00041;", "&#127;", "&#128;", "&#2047;", "&#2048;", "&#65535;", "&#65536;", "&#x7ff;",
+              "&#x800;", "&#xffff;", "&#x10000;", ">", "'", ";", "x;y", "&#9;", "&#10;", "&#13;", "\t", "\n", "&#xD7FF;", "&#xAbCd;"]
+
+
 def uline(rng):
-    s = "".join(rng.choice(FRAGS) for _ in range(rng.randint(1, 5)))
+    pool = GOOD_FRAGS if rng.random() < 0.7 else FRAGS
+    s = "".join(rng.choice(pool) for _ in range(rng.randint(1, 5)))
     return "u " + hx(s)
 
 
@@ -240,7 +246,7 @@ def fixed():
 
 def gen(rng, tier):
     yield from fixed()
-    n = 2500 if tier == "quick" else 40000
+    n = 4000 if tier == "quick" else 60000
     for _ in range(n):
         yield xline(node(rng, "full", rng.choice([0, 1, 2, 3]), root=True))
     for _ in range(n):
